@@ -65,8 +65,9 @@ def validate(ctx, module: str, cfg: str, records: list, *, label=None, timeout=1
             for tid, maxl in rej:
                 rec = part[tid - 1]
                 ev = rec["events"][maxl - 1] if 0 < maxl <= len(rec["events"]) else None
-                last = _last_state(path, cfgp, rec, maxl)
-                settled = _last_state(path, cfgp, rec, maxl, settled_inv) if settled_inv else None
+                detail = len(rejections) < 12          # the explanation is computed for the first few only
+                last = _last_state(path, cfgp, rec, maxl) if detail else None
+                settled = _last_state(path, cfgp, rec, maxl, settled_inv) if (settled_inv and detail) else None
                 rejections.append({"index": off + tid - 1, "maxl": maxl, "event": ev, "invariant": None,
                                    "record": rec, "last_state": last, "settled_state": settled})
             ctx.trace_ok(len(part) - len(rej))
